@@ -163,6 +163,8 @@ pub struct Snap {
     pub inlc: Vec<u32>,
     pub blocks: Vec<u32>,
     pub wallet: Vec<(u32, bool)>,
+    /// every (id, hash) the by-height index holds, on-chain or not (`get_block_hashes_at_block_id`)
+    pub ring: Vec<(u64, u32)>,
 }
 
 pub async fn snapshot(n: &Node, ids: &mut Ids) -> Snap {
@@ -172,6 +174,14 @@ pub async fn snapshot(n: &Node, ids: &mut Ids) -> Snap {
     for i in 0..max_id + 3 {
         if let Some(h) = bc.blockring.get_longest_chain_block_hash_at_block_id(i) {
             lc.push((i, ids.h(&h)));
+        }
+    }
+    let mut ring = vec![];
+    for i in 0..max_id + 3 {
+        let mut hs: Vec<u32> = bc.blockring.get_block_hashes_at_block_id(i).iter().map(|h| ids.h(h)).collect();
+        hs.sort();
+        for h in hs {
+            ring.push((i, h));
         }
     }
     let mut utxo: Vec<u32> = bc.utxoset.iter().filter(|(_, v)| **v).map(|(k, _)| ids.k(k)).collect();
@@ -187,19 +197,20 @@ pub async fn snapshot(n: &Node, ids: &mut Ids) -> Snap {
         Some((tid, th)) => (tid, ids.h(&th)),
         None => (u64::MAX, 0),
     };
-    Snap { tip, lc, utxo, inlc, blocks, wallet }
+    Snap { tip, lc, utxo, inlc, blocks, wallet, ring }
 }
 
 pub fn dump(res: &str, s: &Snap) -> String {
     let tip = if s.tip.0 == u64::MAX { "panic".to_string() } else { format!("{}:{}", s.tip.0, s.tip.1) };
     format!(
-        "res={} tip={} lc=[{}] utxo=[{}] inlc=[{}] blocks=[{}]",
+        "res={} tip={} lc=[{}] utxo=[{}] inlc=[{}] blocks=[{}] ring=[{}]",
         res,
         tip,
         s.lc.iter().map(|(i, h)| format!("{}:{}", i, h)).collect::<Vec<_>>().join(","),
         plain(&s.utxo),
         plain(&s.inlc),
-        plain(&s.blocks)
+        plain(&s.blocks),
+        s.ring.iter().map(|(i, h)| format!("{}:{}", i, h)).collect::<Vec<_>>().join(",")
     )
 }
 
@@ -363,7 +374,10 @@ pub async fn run_case(
         };
         let replay_json = serde_json::json!({"case": ctx, "step": step, "op": op});
         let mut fail = |key: String, what: String| {
-            if feats == "clean-history" {
+            if let Some(exact) = key.strip_prefix('!') {
+                // a key that names its own input class (not subject to the history feature)
+                emit("M", &format!("{}\t{}\t{}", exact, what, replay_json));
+            } else if feats == "clean-history" {
                 emit("M", &format!("{}/clean-history\t{}\t{}", key, what, replay_json));
             } else {
                 emit("M", &format!("{}/{}\t[{}] {}\t{}", &key[..3], feats, key, what, replay_json));
@@ -413,7 +427,19 @@ pub async fn run_case(
             if before.inlc != after.inlc { diff.push("flags"); }
             if before.blocks != after.blocks { diff.push("blocks"); }
             if before.wallet != after.wallet { diff.push("wallet"); }
-            fail("C04/rejected-block-left-trace".to_string(), format!("changed: {} ; before {:?} after {:?}", diff.join("+"), before, after));
+            if before.ring != after.ring { diff.push("ring-entries"); }
+            // the pinned failure paths need a competitor or a multi-block candidate; a block that simply extends the
+            // tip (no old chain, candidate of one block) and is rejected must leave nothing behind on every tree
+            let plain_extension = !f_orphan && before.tip.0 != u64::MAX && before.tip.1 == ids.h(&b.previous_block_hash);
+            let sibling = before.ring.iter().any(|(i, _)| *i == b.id);
+            if plain_extension && sibling {
+                // RingItem::delete_block marks entry 0 of the height slot on-chain (listed finding, ringDeleteKeepsNone)
+                fail("!C04/rejected-block-left-trace/plain-tip-extension-with-another-block-stored-at-that-height".to_string(), format!("changed: {} ; before {:?} after {:?}", diff.join("+"), before, after));
+            } else if plain_extension {
+                fail("!C04/rejected-block-left-trace/plain-tip-extension".to_string(), format!("changed: {} ; before {:?} after {:?}", diff.join("+"), before, after));
+            } else {
+                fail("C04/rejected-block-left-trace".to_string(), format!("changed: {} ; before {:?} after {:?}", diff.join("+"), before, after));
+            }
         }
 
         // ---- C05: height monotone; orphan inert; tip moves only to a longer, heavier, valid, ticket-dense chain; adoption
